@@ -3,4 +3,4 @@ CONSTANTS
   Cap = 16
   Readers = {1, 2, 3, 4, 5, 6, 7, 8}
   MaxAdds = 1000
-  Fixed = FALSE
+  Fixed = TRUE
